@@ -10,6 +10,58 @@ import vlib, suvec
 from vlib import Infra
 
 
+def nested_expression_faults(v, tier):
+    """module ExprFaults: statements with nested expressions, the k-th allocation failing (ASan build, own ledger)"""
+    r = vlib.tlc("ExprFaults", "ExprFaults.cfg", timeout=600, coverage=False)
+    vlib.tlc_ok(r, "ExprFaults")
+    cases = [e for e in r.edges if e.get("e") != "none"]
+    if len(cases) < 2000:
+        raise Infra("ExprFaults exported only %d cases" % len(cases))
+    exe = vlib.build_harness("exprfault_replay", "asan", extra_flags=["-std=c++14"])
+    lines = ["%d %s %s %d %d" % (i, e["e"], e["f"], e["d"], e["k"]) for i, e in enumerate(cases)]
+    start = 0; nfired = 0; guard = 0; seen = {}
+    def report(i, what, extra=""):
+        e = cases[i]
+        key = "nested/%s/%s/%s" % (e["e"], e["f"], what.split(":")[0])
+        seen[key] = seen.get(key, 0) + 1
+        if seen[key] <= 2:
+            v.violation(key, "statement form %s with right-hand side %s, dimension %d, allocation #%d failing: %s %s" % (e["f"], e["e"], e["d"], e["k"], what, extra), {"exprfault_case": e})
+    while start < len(lines) and guard < 12:      # (every std::terminate / crash costs a restart: a dozen are evidence enough)
+        guard += 1
+        rc, out, err = vlib.run_lines(exe, "\n".join(lines[start:]) + "\n", timeout=900, env={"ASAN_OPTIONS": "detect_leaks=0:abort_on_error=0:allocator_may_return_null=1"})
+        for l in out:
+            if l.startswith("FAIL"):
+                p = l.split()
+                report(int(p[1]), p[2])
+        if any(l.startswith("BADINPUT") for l in out):
+            raise Infra("exprfault_replay rejected its input")
+        done = [l for l in out if l.startswith("DONE")]
+        if done:
+            nfired += int(done[0].split()[3])
+            break
+        died = [l for l in out if l.startswith("DIED")]
+        fails = [int(l.split()[1]) for l in out if l.startswith("FAIL")]
+        if died and fails:
+            start = fails[-1] + 1            # std::terminate inside that case (already reported): go on behind it
+            continue
+        # killed by a signal / sanitizer report: locate the case by bisection (finished cases print nothing unless they fail)
+        lo, hi = start, len(lines)
+        while hi - lo > 1:
+            mid = (lo + hi) // 2
+            rc2, out2, err2 = vlib.run_lines(exe, "\n".join(lines[lo:mid]) + "\n", timeout=900, env={"ASAN_OPTIONS": "detect_leaks=0:abort_on_error=0:allocator_may_return_null=1"})
+            if any(l.startswith("DONE") for l in out2):
+                lo = mid
+            else:
+                hi = mid
+        first = [l for l in err.splitlines() if "ERROR: AddressSanitizer" in l or "runtime error" in l][:1]
+        report(lo, "memory-error-or-crash", "(rc=%s %s)" % (rc, first))
+        start = lo + 1
+    v.add("states", r.distinct); v.add("transitions", r.generated); v.add("traces_validated_against_impl", len(cases))
+    v.cov["nested_expression_fault_cases"] = {"cases": len(cases), "in_which_the_armed_allocation_fired": nfired}
+    if nfired < len(cases) // 10 and not seen:
+        raise Infra("vacuity: the armed allocation fired in only %d of %d nested-expression cases" % (nfired, len(cases)))
+
+
 def run(v, tier, seed, replay):
     if replay:
         return suvec.replay(v, replay, "asan")
@@ -57,4 +109,5 @@ def run(v, tier, seed, replay):
     v.cov["rule"] = ("every (reachable state of <= %d calls, allocating call, k-th allocation fails) of the exploration; a case is non-trivial when the injected failure actually fired; "
                      "distinct = call classes (call, operation, statement kind) in which it fired") % 3
     v.assumptions.append("only the library's block allocations (operator new[]) are failed; std::string/exception allocations are not")
+    nested_expression_faults(v, tier)
     return "fault_enumeration"
